@@ -294,6 +294,8 @@ func genMixed(seed uint64, fam string, pf profile) *Scenario {
 func genFor(prop, part string, seed uint64) *Scenario {
 	pf := baseProfile
 	switch prop {
+	case "C10":
+		return genC10(seed, part)
 	case "C17":
 		return genC17(seed, part)
 	case "C06":
@@ -437,6 +439,11 @@ func c13Boost(sc *Scenario, r *common.Rng) {
 
 func oracleFor(prop string, a *analysis) verdict {
 	switch prop {
+	case "C10":
+		if raceMode {
+			return a.oracleC10Race()
+		}
+		return a.oracleC10()
 	case "C01":
 		return a.oracleC01()
 	case "C02":
@@ -499,6 +506,9 @@ func runSched(job common.Job, em *emitter) {
 		if v.NonTrivial {
 			res.NonTrivial = 1
 			res.Sigs = []string{a.signature()}
+			if raceMode {
+				res.Sigs = []string{common.Hs(fmt.Sprint(sc.Seed))}
+			}
 		}
 		if v.Status == common.Violated {
 			res.Replay = mustJSON(map[string]interface{}{"scenario": sc})
